@@ -120,14 +120,21 @@ class _Failed:
         return None
 
 
-def run_connect(respond, opts, fault=None, use_cc=False):
-    """returns (net, ws, outcome) ; outcome = ('ret',) or ('exc', exception)."""
+def run_connect(respond, opts, fault=None, use_cc=False, prior=None):
+    """returns (net, ws, outcome) ; outcome = ('ret',) or ('exc', exception).
+    prior="stale": the same WebSocket object had an earlier, successful connection that died with ECONNRESET inside recv() (a raw transport
+    error: the object is left as it was) before the application calls connect() again."""
     lib.reset_globals()
     env.install_urandom("real")
     net = simnet.Net()
     hops = []
+    first = []
 
     def peer_for(net_, sock, address):
+        if prior and not first:
+            p = Peer(lambda req, hop, sk: build_response(req, 101, "websocket", "Upgrade", "right", None), -1)
+            first.append(p)
+            return p
         p = Peer(respond, len(hops))
         hops.append(p)
         return p
@@ -145,6 +152,15 @@ def run_connect(respond, opts, fault=None, use_cc=False):
                 out = ("exc", e)
             return net, ws, out, hops
         ws = lib.websocket.WebSocket()
+        if prior:
+            ws.connect("ws://example.com/first")
+            net.socks[0].at_end = "reset"
+            try:
+                ws.recv()
+            except OSError:
+                pass
+            net.prior_socks = list(net.socks)
+            net.log[:] = []
         try:
             ws.connect("ws://example.com/chat", **opts)
             out = ("ret",)
@@ -165,7 +181,7 @@ def check_outcome(net, ws, out, expect_success, label, sigbase):
             return (dict(sigbase, kind="valid-upgrade-rejected"), "%s: valid upgrade but connect() raised %s: %s" % (label, type(out[1]).__name__, str(out[1])[:100]))
         if not ws.connected or ws.getstatus() != 101 or ws.sock is None or ws.sock.closed:
             return (dict(sigbase, kind="success-state-wrong"), "%s: connect() returned with connected=%r status=%r sock=%r" % (label, ws.connected, ws.getstatus(), ws.sock))
-        others = [s for s in net.socks if s is not ws.sock and not s.closed]
+        others = [s for s in net.socks if s is not ws.sock and not s.closed and s not in getattr(net, "prior_socks", [])]
         if others:
             return (dict(sigbase, kind="transport-leak-on-success"), "%s: %d earlier transport(s) left open" % (label, len(others)))
     elif expect_success is False:
@@ -174,20 +190,20 @@ def check_outcome(net, ws, out, expect_success, label, sigbase):
                     "%s: connect() returned (connected=%r, status=%r) although the response is not a valid upgrade" % (label, ws.connected, ws.getstatus()))
         if ws.connected or ws.sock is not None:
             return (dict(sigbase, kind="failed-but-connected"), "%s: connect() raised but connected=%r sock=%r" % (label, ws.connected, ws.sock))
-        leaked = net.open_socks()
+        leaked = [s for s in net.open_socks() if s not in getattr(net, "prior_socks", [])]
         if leaked:
             return (dict(sigbase, kind="transport-leak-on-failure"), "%s: connect() raised %s but %d transport(s) stay open" % (label, type(out[1]).__name__, len(leaked)))
     return None
 
 
-def recipe_case(status, upgrade, connection, accept, offered, selected):
+def recipe_case(status, upgrade, connection, accept, offered, selected, prior=None):
     def respond(req, hop, sock):
         return build_response(req, status, upgrade, connection, accept, selected)
 
     opts = {}
     if offered:
         opts["subprotocols"] = offered
-    net, ws, out, hops = run_connect(respond, opts, use_cc=(hash((status, upgrade, connection, accept, selected)) % 3 == 0))
+    net, ws, out, hops = run_connect(respond, opts, use_cc=(not prior and hash((status, upgrade, connection, accept, selected)) % 3 == 0), prior=prior)
     ok = status == 101 and has_token(upgrade, "websocket") and has_token(connection, "upgrade") and accept == "right"
     expect = ok
     if ok and offered:
@@ -196,6 +212,8 @@ def recipe_case(status, upgrade, connection, accept, offered, selected):
         elif selected not in offered:
             expect = None  # differs in case only: don't-care
     label = "response status=%d Upgrade=%r Connection=%r accept=%s offered=%r selected=%r" % (status, upgrade, connection, accept, offered, selected)
+    if prior:
+        label += " [object re-used after an earlier connection died with ECONNRESET]"
     why = "status" if status != 101 else ("upgrade" if not has_token(upgrade, "websocket") else ("connection" if not has_token(connection, "upgrade") else ("accept:" + accept if accept != "right" else "subprotocol")))
     return check_outcome(net, ws, out, expect, label, {"part": "recipe", "why": why if not ok or expect is False else "valid"})
 
@@ -253,7 +271,7 @@ def redirect_case(length, limit, ending, rstatus):
     return None
 
 
-def fault_case(pos, kind, hop_with_fault):
+def fault_case(pos, kind, hop_with_fault, prior=None):
     def respond(req, hop, sock):
         if hop_with_fault == 1 and hop == 0:
             return build_response(req, 302, None, None, "absent", None, location="ws://host1.example/next")
@@ -261,8 +279,8 @@ def fault_case(pos, kind, hop_with_fault):
         sock.at_end = kind
         return full[:pos]
 
-    net, ws, out, hops = run_connect(respond, {}, use_cc=pos % 2 == 1)
-    label = "%s after %d bytes of a valid response (hop %d)" % (kind, pos, hop_with_fault)
+    net, ws, out, hops = run_connect(respond, {}, use_cc=(not prior and pos % 2 == 1), prior=prior)
+    label = "%s after %d bytes of a valid response (hop %d)%s" % (kind, pos, hop_with_fault, " [object re-used after an earlier connection died with ECONNRESET]" if prior else "")
     return check_outcome(net, ws, out, False, label, {"part": "fault", "fault": kind, "hop": hop_with_fault})
 
 
@@ -292,6 +310,9 @@ def run_task(desc):
         for up, co, ac, of, se in itertools.product(UPGRADES, CONNECTIONS, ACCEPTS, OFFERED, SELECTED):
             n += 1
             rec(guarded(recipe_case, status, up, co, ac, of, se), {"case": "recipe", "args": [status, up, co, ac, of, se]})
+            if of is OFFERED[0] and se is SELECTED[0]:
+                n += 1
+                rec(guarded(recipe_case, status, up, co, ac, of, se, "stale"), {"case": "recipe", "args": [status, up, co, ac, of, se, "stale"]})
         res["samples"].append({"status": status, "upgrade": UPGRADES[:3], "accept_variants": ACCEPTS})
     elif desc["part"] == "redirects":
         for length in range(0, 6):
@@ -308,6 +329,9 @@ def run_task(desc):
                 for kind in ("eof", "timeout", "reset"):
                     n += 1
                     rec(guarded(fault_case, pos, kind, hop), {"case": "fault", "args": [pos, kind, hop]})
+                    if pos % 7 == 0 or pos >= hl - 4:
+                        n += 1
+                        rec(guarded(fault_case, pos, kind, hop, "stale"), {"case": "fault", "args": [pos, kind, hop, "stale"]})
         res["samples"].append({"fault_positions": hl, "kinds": ["eof", "timeout", "reset"], "hops": [0, 1]})
     res["execs"] = res["complete"] = res["distinct"] = n
     return res
